@@ -232,10 +232,387 @@ def gen_tables(repo):
     return '\n'.join(L) + '\n'
 
 
+# ----------------------------------------------------------------------------- expressions
+
+class Unrecognised(Exception):
+    pass
+
+
+TOKEN_RE = re.compile(r'\s*(?:(\d+\.\d*(?:[eE][+-]?\d+)?|\d+[eE][+-]?\d+|\.\d+(?:[eE][+-]?\d+)?|\d+)|([A-Za-z_][\w:\.]*(?:\(\))?)|(.))')
+
+
+def parse_decimal(tok: str):
+    """decimal literal -> reduced (num, den)"""
+    from fractions import Fraction
+    t = tok.rstrip('.') if tok.endswith('.') else tok
+    if t.endswith('_f64'):
+        t = t[:-4]
+    fr = Fraction(t)
+    return fr.numerator, fr.denominator
+
+
+class ExprParser:
+    """Rust float expression -> Lean BExpr term.  Grammar: + - * / unary-, parentheses, decimal
+    literals, PI, `<path>.get_value()`, `<ident> as f64`, method calls a()/b()/angle() on
+    self.cell, `.sin()`/`.cos()` are NOT accepted here (structural code is modelled by hand)."""
+
+    VAR_MAP = [
+        (re.compile(r'^(?:std::f64::consts::|f64::consts::)?PI$'), None),
+        (re.compile(r'^self\.(\w+)\.get_value\(\)$'), r'\1'),
+        (re.compile(r'^(\w+)$'), r'\1'),
+        (re.compile(r'^wyckoff\.multiplicity\(\)$'), 'multiplicity'),
+        (re.compile(r'^shape\.enclosing_radius\(\)$'), 'enclosing_radius'),
+        (re.compile(r'^self\.shape\.enclosing_radius\(\)$'), 'enclosing_radius'),
+    ]
+
+    def __init__(self, text):
+        self.toks = []
+        text = re.sub(r'\bas\s+f64\b', '', text)
+        pos = 0
+        while pos < len(text):
+            m = TOKEN_RE.match(text, pos)
+            if not m or m.end() == pos:
+                break
+            pos = m.end()
+            if m.group(1) is not None:
+                self.toks.append(('num', m.group(1)))
+            elif m.group(2) is not None:
+                self.toks.append(('id', m.group(2)))
+            elif m.group(3) is not None and m.group(3).strip():
+                self.toks.append(('op', m.group(3)))
+        self.i = 0
+
+    def peek(self):
+        return self.toks[self.i] if self.i < len(self.toks) else (None, None)
+
+    def take(self):
+        t = self.peek()
+        self.i += 1
+        return t
+
+    def parse(self):
+        e = self.expr()
+        if self.i != len(self.toks):
+            raise Unrecognised('trailing tokens in expression: %r' % (self.toks[self.i:],))
+        return e
+
+    def expr(self):
+        e = self.term()
+        while self.peek() in (('op', '+'), ('op', '-')):
+            op = self.take()[1]
+            r = self.term()
+            e = '(.%s %s %s)' % ('add' if op == '+' else 'sub', e, r)
+        return e
+
+    def term(self):
+        e = self.unary()
+        while self.peek() in (('op', '*'), ('op', '/')):
+            op = self.take()[1]
+            r = self.unary()
+            e = '(.%s %s %s)' % ('mul' if op == '*' else 'div', e, r)
+        return e
+
+    def unary(self):
+        if self.peek() == ('op', '-'):
+            self.take()
+            return '(.neg %s)' % self.unary()
+        return self.atom()
+
+    def atom(self):
+        k, v = self.take()
+        if k == 'num':
+            n, d = parse_decimal(v)
+            return '(.lit %d %d)' % (n, d)
+        if k == 'op' and v == '(':
+            e = self.expr()
+            if self.take() != ('op', ')'):
+                raise Unrecognised('missing )')
+            return e
+        if k == 'id':
+            # the token regex keeps `name()` together; method chains arrive as one id
+            # possibly followed by "(" ")" tokens when arguments are empty
+            if re.match(r'^(?:std::f64::consts::|f64::consts::)?PI$', v):
+                return '.pi'
+            m = re.match(r'^self\.(\w+)\.get_value\(\)$', v)
+            if m:
+                return '(.var "%s")' % m.group(1)
+            m = re.match(r'^(?:self\.)?(?:shape\.)?enclosing_radius\(\)$', v)
+            if m or v in ('shape.enclosing_radius()', 'self.shape.enclosing_radius()'):
+                return '(.var "enclosing_radius")'
+            if v == 'wyckoff.multiplicity()':
+                return '(.var "multiplicity")'
+            if re.match(r'^[a-z_]\w*$', v):
+                return '(.var "%s")' % v
+        raise Unrecognised('unrecognised atom %r' % (v,))
+
+
+def to_bexpr(text):
+    return ExprParser(text).parse()
+
+
+def split_args(text):
+    """split a comma-separated argument list at depth 0"""
+    out, depth, cur = [], 0, ''
+    for c in text:
+        if c in '([{':
+            depth += 1
+        elif c in ')]}':
+            depth -= 1
+        if c == ',' and depth == 0:
+            out.append(cur)
+            cur = ''
+        else:
+            cur += c
+    if cur.strip():
+        out.append(cur)
+    return [a.strip() for a in out]
+
+
+PARAM_OF_FIELD = {'length': 'length', 'ratio': 'ratio', 'angle': 'angle', 'x': 'x', 'y': 'y'}
+
+
+def basis_pushes(text, notes, where, angle_is='angle'):
+    """all `basis.push(StandardBasis::new(&self.f, min, max))` in text, in order"""
+    out = []
+    for m in re.finditer(r'basis\s*\.\s*push\s*\(\s*StandardBasis::new\s*\(', text):
+        j = match_brace(text, m.end() - 1)
+        args = split_args(text[m.end():j])
+        if len(args) != 3 or not re.match(r'^&self\.(\w+)$', args[0]):
+            notes.append('%s: unrecognised StandardBasis::new(%s)' % (where, ', '.join(args)))
+            continue
+        field = re.match(r'^&self\.(\w+)$', args[0]).group(1)
+        param = PARAM_OF_FIELD.get(field)
+        if field == 'angle':
+            param = angle_is
+        if param is None:
+            notes.append('%s: unknown field %s' % (where, field))
+            continue
+        try:
+            out.append((param, to_bexpr(args[1]), to_bexpr(args[2])))
+        except Unrecognised as e:
+            notes.append('%s: %s' % (where, e))
+    n_push = len(re.findall(r'\.\s*push\s*\(', text))
+    if n_push != len(out):
+        notes.append('%s: %d push calls, %d recognised' % (where, n_push, len(out)))
+    return out
+
+
+def lean_dofs(dofs):
+    return '[' + ', '.join('⟨.%s, %s, %s⟩' % d for d in dofs) + ']'
+
+
+FAMILIES = ['Monoclinic', 'Orthorhombic', 'Hexagonal', 'Tetragonal']
+
+
+def match_arms(body):
+    """[(pattern, arm text)] of the first `match … { … }` in body"""
+    m = re.search(r'\bmatch\b[^{]*\{', body)
+    if not m:
+        return None, None, None
+    j = match_brace(body, m.end() - 1)
+    inner = body[m.end():j]
+    arms = []
+    i = 0
+    while i < len(inner):
+        mm = re.compile(r'\s*([^=]+?)\s*=>\s*').match(inner, i)
+        if not mm:
+            break
+        k = mm.end()
+        if k < len(inner) and inner[k] == '{':
+            e = match_brace(inner, k)
+            arms.append((mm.group(1).strip(), inner[k + 1:e]))
+            i = e + 1
+        else:
+            e = k
+            depth = 0
+            while e < len(inner) and not (inner[e] == ',' and depth == 0):
+                if inner[e] in '([{':
+                    depth += 1
+                elif inner[e] in ')]}':
+                    depth -= 1
+                e += 1
+            arms.append((mm.group(1).strip(), inner[k:e]))
+            i = e
+        while i < len(inner) and inner[i] in ', \n\t':
+            i += 1
+    return body[:m.start()], arms, body[j + 1:]
+
+
+# ----------------------------------------------------------------------------- T2: bounds
+
+def gen_bounds(repo):
+    notes = []
+    cell = read(repo, 'src/cell.rs')
+    site = read(repo, 'src/site.rs')
+    L = ['/- GENERATED by tools/pvtx.py from src/cell.rs, src/site.rs, src/state/*.rs — do not edit. -/',
+         'import Model.Expr', 'namespace PV.Generated', '']
+
+    # --- Cell2::get_degrees_of_freedom
+    body = fn_body(cell, 'get_degrees_of_freedom') or ''
+    pre, arms, post = match_arms(body)
+    common, fam = [], {f: [] for f in FAMILIES}
+    if arms is None:
+        notes.append('get_degrees_of_freedom: no match on the family')
+    else:
+        common = basis_pushes(pre, notes, 'cell dof (common)')
+        if re.sub(r'\s+', '', post) != 'basis':
+            notes.append('get_degrees_of_freedom: unrecognised tail ' + post.strip()[:60])
+        if not re.search(r'match\s+self\.family\b', body):
+            notes.append('get_degrees_of_freedom: match is not on self.family')
+        seen = set()
+        for pat, text in arms:
+            if pat == '_':
+                if text.strip():
+                    notes.append('get_degrees_of_freedom: non-empty default arm')
+                continue
+            mm = re.match(r'^CrystalFamily::(\w+)$', pat)
+            if not mm or mm.group(1) not in fam:
+                notes.append('get_degrees_of_freedom: unrecognised arm ' + pat)
+                continue
+            fam[mm.group(1)] = basis_pushes(text, notes, 'cell dof ' + mm.group(1))
+            seen.add(mm.group(1))
+    L.append('/-- `Cell2::get_degrees_of_freedom`: handles pushed for every family, then per family -/')
+    L.append('def cellDofCommon : List DofSpec := ' + lean_dofs(common))
+    L.append('def cellDofFamily : Family → List DofSpec')
+    for f in FAMILIES:
+        L.append('  | .%s => %s' % (f, lean_dofs(fam[f])))
+    L.append('')
+
+    # --- Cell2::from_family
+    body = fn_body(cell, 'from_family') or ''
+    pre, arms, post = match_arms(body)
+    angles = {}
+    default = None
+    if arms is None:
+        notes.append('from_family: no match')
+    else:
+        for pat, text in arms:
+            try:
+                e = to_bexpr(text)
+            except Unrecognised as ex:
+                notes.append('from_family: %s' % ex)
+                continue
+            if pat == '_':
+                default = e
+            else:
+                mm = re.match(r'^CrystalFamily::(\w+)$', pat)
+                if mm:
+                    angles[mm.group(1)] = e
+                else:
+                    notes.append('from_family: unrecognised arm ' + pat)
+    mr = re.search(r'ratio:\s*SharedValue::new\(([^)]*)\)', post or '')
+    ratio0 = None
+    try:
+        ratio0 = to_bexpr(mr.group(1)) if mr else None
+    except Unrecognised as ex:
+        notes.append('from_family: %s' % ex)
+    if ratio0 is None:
+        notes.append('from_family: initial ratio not found')
+        ratio0 = '(.lit 1 1)'
+    if not re.search(r'length:\s*SharedValue::new\(length\)', post or '') or \
+       not re.search(r'angle:\s*SharedValue::new\(angle\)', post or ''):
+        notes.append('from_family: unrecognised constructor')
+    L.append('/-- `Cell2::from_family`: initial angle per family, initial ratio -/')
+    L.append('def fromFamilyAngle : Family → BExpr')
+    for f in FAMILIES:
+        e = angles.get(f, default)
+        if e is None:
+            notes.append('from_family: no angle for ' + f)
+            e = '.pi'
+        L.append('  | .%s => %s' % (f, e))
+    L.append('def fromFamilyRatio : BExpr := ' + ratio0)
+    L.append('')
+
+    # --- Cell2 arithmetic shape (hand-modelled; the translator pins the text)
+    def norm(x):
+        return re.sub(r'\s+', '', x or '')
+    shapes = {
+        'a': ('self.length.get_value()', fn_body(cell, 'a')),
+        'b': ('self.length.get_value()*self.ratio.get_value()', fn_body(cell, 'b')),
+        'area': ('self.angle().sin()*self.a()*self.b()', fn_body(cell, 'area')),
+        'to_cartesian': ('(x*self.a()+y*self.b()*self.angle().cos(),y*self.b()*self.angle().sin(),)', fn_body(cell, 'to_cartesian')),
+        'to_cartesian_isometry': ('transform.set_position(self.to_cartesian_point(transform.position()))', fn_body(cell, 'to_cartesian_isometry')),
+        'to_cartesian_translate': ('letposition=transform.position();transform.set_position(self.to_cartesian_point(Translation2::new(xasf64,yasf64)*position))', fn_body(cell, 'to_cartesian_translate')),
+        'periodic_images': ('iproduct!(-shells..=shells,-shells..=shells).filter(move|&(x,y)|!(!zero&&x==0&&y==0)).map(move|(x,y)|self.to_cartesian_translate(transform,x,y))', fn_body(cell, 'periodic_images')),
+    }
+    changed = [k for k, (want, got) in shapes.items() if norm(got) != want]
+
+    # --- OccupiedSite::get_basis
+    body = fn_body(site, 'get_basis') or ''
+    sd = []
+    guards = re.findall(r'if\s+dof\[(\d)\]\s*\{', body)
+    if guards != ['0', '1', '2']:
+        notes.append('get_basis: unrecognised dof guards %r' % (guards,))
+    sd = basis_pushes(body, notes, 'site dof', angle_is='rot')
+    L.append('/-- `OccupiedSite::get_basis` (each guarded by the matching entry of `degrees_of_freedom`) -/')
+    L.append('def siteDofSpecs : List DofSpec := ' + lean_dofs(sd))
+    L.append('')
+
+    # --- OccupiedSite::from_wyckoff
+    body = fn_body(site, 'from_wyckoff') or ''
+    mp = re.search(r'let\s+position\s*=\s*([^;]+);', body)
+    pos = None
+    try:
+        pos = to_bexpr(mp.group(1)) if mp else None
+    except Unrecognised as ex:
+        notes.append('from_wyckoff: %s' % ex)
+    if pos is None:
+        notes.append('from_wyckoff: position expression not found')
+        pos = '(.lit 0 1)'
+    ok = all(re.search(p, body) for p in [r'let\s+x\s*=\s*SharedValue::new\(position\)',
+                                          r'let\s+y\s*=\s*SharedValue::new\(position\)'])
+    ma = re.search(r'let\s+angle\s*=\s*SharedValue::new\(([^)]*)\)', body)
+    ang = None
+    try:
+        ang = to_bexpr(ma.group(1)) if ma else None
+    except Unrecognised as ex:
+        notes.append('from_wyckoff: %s' % ex)
+    if not ok or ang is None:
+        notes.append('from_wyckoff: unrecognised initial x/y/angle')
+        ang = ang or '(.lit 0 1)'
+    L.append('/-- `OccupiedSite::from_wyckoff`: initial x = y = position, initial orientation -/')
+    L.append('def siteInitPosition : BExpr := ' + pos)
+    L.append('def siteInitAngle : BExpr := ' + ang)
+    L.append('')
+
+    # --- OccupiedSite::positions: sym * transform, then periodic(period, offset)
+    body = fn_body(site, 'positions') or ''
+    mw = re.search(r'\.periodic\(\s*([^,]+),\s*([^)]+)\)', body)
+    per = off = None
+    try:
+        if mw:
+            per, off = to_bexpr(mw.group(1)), to_bexpr(mw.group(2))
+    except Unrecognised as ex:
+        notes.append('positions: %s' % ex)
+    if per is None:
+        notes.append('positions: wrap call not found')
+        per, off = '(.lit 1 1)', '(.neg (.lit 1 2))'
+    want = 'lettransform=self.transform();self.symmetries().map(move|sym|sym*transform).map(|sym|sym.periodic(%s))' % norm(mw.group(0)[len('.periodic('):-1] if mw else '')
+    if norm(body) != want:
+        changed.append('OccupiedSite::positions')
+    tr = norm(fn_body(site, 'transform'))
+    if tr != 'Transform2::new(self.angle.get_value(),(self.x.get_value(),self.y.get_value()),)':
+        changed.append('OccupiedSite::transform')
+    L.append('/-- `OccupiedSite::positions`: `(sym * site_transform).periodic(period, offset)` -/')
+    L.append('def wrapPeriod : BExpr := ' + per)
+    L.append('def wrapOffset : BExpr := ' + off)
+    L.append('')
+    L.append('/-- hand-modelled functions whose text differs from the shape the model was written against.')
+    L.append('Informational only (no obligation): their behaviour is tied by the bit-exact correspondence. -/')
+    L.append('def handModelledChanged : List String := [' + ', '.join(lean_str(k) for k in changed) + ']')
+    L.append('')
+    L.append('/-- constructs the translator did not recognise (must be empty) -/')
+    L.append('def boundsUnrecognised : List String := [' + ', '.join(lean_str(x) for x in notes) + ']')
+    L.append('')
+    L.append('end PV.Generated')
+    return '\n'.join(L) + '\n'
+
+
 # ----------------------------------------------------------------------------- main
 
 GENERATORS = {
     'Tables.lean': gen_tables,
+    'Bounds.lean': gen_bounds,
 }
 
 
